@@ -11,7 +11,7 @@ META = {
             "and normalize strips carriage returns first; D2 in on_did_change the position conversion re-reads the line map inside the "
             "per-change loop; D3 the splice is guarded (length and character boundary); D4 every stored text is also recorded, as the "
             "same Arc, in the pending Change; D5 text read from disk never replaces a file the Vfs already has, and watched-file reloads "
-            "skip opened documents. One obligation per site. D2 also: no iteration of the change loop skips the splice; D4 also: Change::apply sets every recorded text, in order.",
+            "skip opened documents. One obligation per site. D2 also: no iteration of the change loop skips the splice; D4 also: Change::apply sets every recorded text, in order. D6 every handler that modifies the store applies the pending change before it returns, and the roots are re-partitioned before the change is taken out; D8 a FileId is the key of its slab slot; D9 the last recorded text of a file wins (no keep-first entry API, no thinning of the list); D10 writer and readers of LineMap's table use one coordinate system.",
     "explanation": "Decides the lock-step clauses that keep the server's text and the table used to interpret the client's positions in "
                    "sync, and that the client's text is the one analysed. The position arithmetic itself (UTF-16 columns to byte "
                    "offsets) is a computation on runtime text and is not decided here (see C14, not applicable).",
@@ -227,3 +227,212 @@ def run(F, res, tier):
             prs = [e.get("n") for e in o.get("proj", [])] if o.get("k") == "field" else []
             okt = prs[-2:] == ["text_document", "text"]
     res.ob("D5", "on_did_open/client-text", "didOpen stores exactly params.text_document.text", okt, where=od.loc(), how="argument path ok" if okt else "not traced")
+    store_changes_reach_the_analysis(F, res)
+    file_ids_are_slot_keys(F, res)
+    last_text_wins(F, res)
+    line_map_coordinates_agree(F, res)
+
+
+def store_changes_reach_the_analysis(F, res, rule="D6"):
+    """D6: the document store and the analysis database are two stores. A main-loop handler that modifies the store (a
+    document's text, a file added or removed, the package graph) hands the pending Change to the analysis on every path to
+    its return; and whoever takes the pending Change out of the store first re-partitions the source roots when files were
+    added or removed. Otherwise the analysis keeps answering with a file the store no longer has (the conversion of such an
+    answer panics) or without one it has."""
+    from rules import c15
+    SRV = "glas::server::Server::"
+    MUT = {VFS + "::" + m for m in ("remove_uri", "set_path_content", "change_file_content", "set_package_graph")}
+    APPLY = SRV + "apply_vfs_change"
+    srv = {p: f for p, f in F.fns.items() if p.startswith(SRV) and f.blocks and "{closure" not in p}
+    applies = {APPLY}
+    for _ in range(3):
+        for p, f in srv.items():
+            if p in applies:
+                continue
+            via = [b for b, t in f.calls() if callee(t) in applies]
+            if via and FL.must_pass(f, via, f.return_blocks()):
+                applies.add(p)
+    mutating = set(MUT)
+    unsettled = {}
+    for _ in range(4):
+        for p, f in sorted(srv.items()):
+            if p in mutating or p == APPLY:
+                continue
+            views = [f] + [F.fns[c] for c in F.closures_of(p)]
+            sites = [b for b, t in f.calls() if callee(t) in mutating]
+            # a mutation inside a closure of the handler counts at the place the closure is built / called
+            for cf in views[1:]:
+                if any(callee(t) in mutating for b, t in cf.calls()):
+                    for b, i, s in f.stmts():
+                        rv = s.get("rv")
+                        if rv and rv["k"] == "agg" and rv.get("closure") == cf.path:
+                            sites.append(b)
+            if not sites:
+                continue
+            via = [b for b, t in f.calls() if callee(t) in applies]
+            rets = f.return_blocks()
+            bad = [b for b in sites if any(f.can_reach(b, [r], avoid=[v for v in via if v != b]) for r in rets)]
+            if bad:
+                mutating.add(p)
+                unsettled[p] = sorted({f.term(b)["ln"] for b in bad})
+    n = 0
+    for e in [SRV + x for x in c15.ENTRIES]:
+        f = F.fns.get(e)
+        if f is None:
+            continue
+        if e in mutating or any(callee(t) in mutating or callee(t) in applies for b, t in f.calls()):
+            n += 1
+            res.ob(rule, "handed-to-analysis/%s" % e.rsplit("::", 1)[-1], "every path of %s from a modification of the document store to its return "
+                   "applies the pending change to the analysis" % e.rsplit("::", 1)[-1], e not in mutating, where=f.loc(),
+                   how="a path from the modification at line %s reaches the return without apply_vfs_change" % unsettled.get(e)
+                   if e in mutating else "all such paths pass apply_vfs_change (or a helper that always calls it)")
+    res.floor("main-loop handlers that modify the store", n, 4)
+    takers = [(f, b) for p, f in sorted(F.fns.items()) if p.startswith("glas::") and f.blocks for b, t in f.calls() if callee(t) == VFS + "::take_change"]
+    for f, b in takers:
+        d = FL.Defs(f)
+        sets = [b2 for b2, t2 in f.calls() if callee(t2) == VFS + "::set_roots" and f.can_reach(b2, [b])]
+        ok = False
+        for b2 in sets:
+            for g in FL.gates(F, f, [b2], d):
+                if (g.get("callee") or "") == VFS + "::is_structural_change" and g["allowed"] == [True] and f.dominates(g.get("call_bb", g["bb"]), b):
+                    ok = True
+        res.ob(rule, "roots-relowered-before-take/%s" % f.name, "the pending change is taken out of the store only after the source roots were "
+               "re-partitioned if a file was added or removed (is_structural_change() -> lower_vfs -> set_roots)", ok, where=f.loc(f.term(b)["ln"]),
+               how="set_roots sites before take_change: %d, gated by is_structural_change(): %s" % (len(sets), ok))
+    res.floor("places where the pending change is taken out of the store", len(takers), 1)
+
+
+def file_ids_are_slot_keys(F, res, rule="D8"):
+    """D8: the FileId under which a new file is registered (path <-> id map, pending Change) is the key of the slab slot that holds
+    its text. Slab::len() is the key of the next slot only while no slot was ever freed: after a document was forgotten a new
+    file would take the id of another live document."""
+    f = vfs_view(F, "set_path_content")
+    d = FL.Defs(f)
+    ids = []
+    for b, i, s in f.stmts():
+        rv = s.get("rv")
+        if rv and rv["k"] == "agg" and rv.get("agg") == "adt" and rv.get("adt", "").endswith("base::FileId") and rv["ops"]:
+            dep = FL.depends(F, f, d, rv["ops"][0])
+            ids.append((s["ln"], dep["calls"]))
+    ok = bool(ids) and all(("VacantEntry::key" in c or "Slab::insert" in c or "Slab::vacant_key" in c) and "Slab::len" not in c for _, c in ids)
+    res.ob(rule, "set_path_content/id-is-slot-key", "a new file's FileId is the key of the slab slot its text goes into (VacantEntry::key / the "
+           "result of Slab::insert), never a count", ok, where=f.loc(ids[0][0]) if ids else f.loc(),
+           how="FileId built from %s" % [sorted(x for x in c if "Slab" in x or "Vacant" in x) for _, c in ids])
+
+
+def last_text_wins(F, res, rule="D9"):
+    """D9: between the document store and the database the *last* recorded text of a file must win. Change::change_file records a
+    text by appending it (or by overwriting the file's entry), never through an entry API that keeps an existing value; and
+    Change::apply does not thin the list out (dedup*/retain/truncate/..) before it sets the texts in recording order."""
+    cf = F.fn("ide::base::Change::change_file")
+    d = FL.Defs(cf)
+    KEEP_FIRST = ("Entry::or_insert", "Entry::or_insert_with", "Entry::or_default", "VacantEntry::insert", "Entry::or_insert_with_key",
+                  "HashMap::try_insert")
+    calls = [(FL.short(callee(t) or callee_def(t) or ""), t) for b, t in cf.calls()]
+    stores = [c for c, t in calls if c.endswith("::push") or c.endswith("::insert") or c.endswith("::push_back")]
+    keeps = [c for c, t in calls if any(c.endswith(k.split("::", 1)[1]) and k.split("::")[0] in c for k in KEEP_FIRST)]
+    res.ob(rule, "change_file/records-unconditionally", "Change::change_file appends the new text (or overwrites the file's entry): an earlier text of "
+           "the same file never shadows it", bool(stores) and not keeps, where=cf.loc(),
+           how="stores through %s; keep-existing entry calls: %s" % (sorted(set(stores)), keeps))
+    ap = F.fn("ide::base::Change::apply")
+    THIN = ("dedup", "dedup_by", "dedup_by_key", "retain", "retain_mut", "truncate", "pop", "remove", "swap_remove", "drain", "clear", "split_off")
+    da = FL.Defs(ap)
+    thin = []
+    for q in [ap.path] + list(F.closures_of(ap.path)):
+        g = F.fns[q]
+        dg = FL.Defs(g)
+        for b, t in g.calls():
+            c = FL.short(callee(t) or callee_def(t) or "")
+            if c.rsplit("::", 1)[-1] in THIN and t["args"]:
+                fs = FL.fields_feeding(F, g, dg, t["args"][0], "base::Change")
+                if "file_changes" in fs:
+                    thin.append((c, t["ln"]))
+    res.ob(rule, "apply/list-not-thinned", "Change::apply sets every recorded text; nothing removes entries from file_changes first", not thin,
+           where=ap.loc(thin[0][1]) if thin else ap.loc(), how="entry-removing calls on file_changes: %s" % thin)
+
+
+def line_map_coordinates_agree(F, res, rule="D10"):
+    """D10: LineMap keeps, per line, the byte position of every multi-byte character. The writer (normalize) and the two readers
+    (pos_for_line_col: client position -> offset, used by every edit; line_col_for_pos: offset -> client position, used by
+    every answer) must mean the same thing by "position": all relative to the line start, or all absolute. A half-converted
+    representation is invisible on the first line (both coincide there) and shifts every edit or every range behind a
+    non-ASCII character on any other line. Decided by provenance: the writer's counter starts at a constant (relative) or at
+    the line start (absolute); a reader compares the stored position with a value that involves `line_starts` or not."""
+    from lib.facts import op_place
+    LM = "glas::vfs::LineMap::"
+    from lib import inline as IL
+    nm0 = F.fn(LM + "normalize")
+    # private helpers of LineMap that normalize delegates to (`char_diffs_of`) are part of the writer
+    nm = IL.inlined(F, nm0, want=lambda p: p.startswith(LM) and "{closure" not in p and
+                    p.rsplit("::", 1)[-1] not in ("normalize", "pos_for_line_col", "line_col_for_pos", "end_col_for_line", "last_line"), depth=2)
+    d = FL.Defs(nm)
+    tup = [(b, s) for b, i, s in nm.stmts() if (s.get("rv") or {}).get("k") == "agg" and s["rv"].get("agg") == "tuple" and len(s["rv"]["ops"]) == 2
+           and "CodeUnitsDiff" in (nm.local_ty(s["place"]["l"]) or "")]
+    starts = []
+    for b, s in tup:
+        seen, st = set(), [s["rv"]["ops"][0]]
+        while st and len(seen) < 400:
+            o = st.pop()
+            pl = op_place(o) if isinstance(o, dict) else None
+            if pl is None or pl["l"] in seen:
+                continue
+            seen.add(pl["l"])
+            for dd in d.defs.get(pl["l"], []):
+                if dd[2] == "call":
+                    st.extend(dd[3]["args"])
+                else:
+                    rv = dd[3]["rv"]
+                    if rv.get("k") == "agg" and (rv.get("adt") or "").endswith(("range::RangeFrom", "range::Range", "range::RangeInclusive")) and (nm.local_ty(pl["l"]) or "").endswith("<u32>"):
+                        k = rv["ops"][0].get("k") if isinstance(rv["ops"][0], dict) else None
+                        starts.append("const" if isinstance(k, dict) and "bits" in k else "variable")
+                    for key in ("op", "a", "b"):
+                        if isinstance(rv.get(key), dict):
+                            st.append(rv[key])
+                    if "place" in rv:
+                        st.append({"cp": rv["place"]})
+                    st.extend(rv.get("ops", []) or [])
+    writer = None if not starts else ("relative" if all(x == "const" for x in starts) else "absolute")
+
+    def reader(name):
+        f = F.fn(LM + name)
+        out = []
+        for q in [f.path] + list(F.closures_of(f.path)):
+            g = F.fns[q]
+            dg = FL.Defs(g)
+            for b, i, s in g.stmts():
+                rv = s.get("rv") or {}
+                if rv.get("k") != "bin" or rv["op"] not in ("Lt", "Le", "Gt", "Ge"):
+                    continue
+                sides = []
+                for side in ("a", "b"):
+                    o = dg.origin_op(rv[side])
+                    # an operand read out of a (position, diff) pair of char_diffs
+                    is_entry = o.get("k") == "field" and any(isinstance(e, dict) and e.get("f") == 0 for e in o.get("proj", [])) and \
+                        "CodeUnitsDiff" in str(g.local_ty(o.get("l")) or "") or \
+                        "CodeUnitsDiff" in str(g.local_ty(op_local(rv[side])) or "")
+                    sides.append((side, is_entry))
+                ent = [sd for sd, e in sides if e]
+                if len(ent) != 1:
+                    # decide by type of the closure parameter / loop item: fall back to "the side that is not derived from self/args"
+                    continue
+                other = "b" if ent[0] == "a" else "a"
+                if q != f.path:
+                    o = dg.origin_op(rv[other])
+                    idx = FL.closure_env_field(o)
+                    if idx is not None:
+                        pf, po = FL.upvar_origin(F, q, idx)
+                        if pf is not None and po.get("l") is not None:
+                            fs = FL.fields_feeding(F, pf, FL.Defs(pf), {"cp": {"l": po["l"], "p": []}}, "LineMap")
+                            out.append("line_starts" in fs)
+                            continue
+                fs = FL.fields_feeding(F, g, dg, rv[other], "LineMap")
+                out.append("line_starts" in fs)
+        return out
+    r1, r2 = reader("pos_for_line_col"), reader("line_col_for_pos")
+    c1 = None if not r1 else ("absolute" if any(r1) else "relative")
+    c2 = None if not r2 else ("relative" if all(r2) else "absolute")
+    ok = writer is not None and c1 is not None and c2 is not None and writer == c1 == c2
+    res.ob(rule, "line-map/one-coordinate-system", "LineMap::normalize, pos_for_line_col and line_col_for_pos agree on whether a stored character position "
+           "is relative to its line or absolute", ok, where=nm0.loc(),
+           how="writer: %s (counter starts: %s); pos_for_line_col compares with a %s value; line_col_for_pos compares with a %s value"
+           % (writer, sorted(set(starts)), c1, c2))
